@@ -33,6 +33,7 @@ type refHandler struct {
 	deferred   map[string]int
 	processed  map[string]int // MID -> number of successful ProcessInbound
 	dedup      bool           // reject MIDs already in the inbox (used for convergence histories)
+	fwAsked    [][]string     // the forwarder addresses of every GetOutbound call
 }
 
 func newRefHandler() *refHandler {
@@ -56,6 +57,11 @@ func (h *refHandler) GetOutbound(fw ...fbb.Address) []*fbb.Message {
 	h.mu.Lock()
 	defer h.mu.Unlock()
 	h.log("getout")
+	var asked []string
+	for _, a := range fw {
+		asked = append(asked, strings.ToUpper(a.Addr))
+	}
+	h.fwAsked = append(h.fwAsked, asked)
 	var out []*fbb.Message
 	for _, m := range h.outbox {
 		if !h.gone[m.MID()] && !h.sessDefer[m.MID()] {
